@@ -43,6 +43,7 @@ def h(t, part):
     bits = [t.bool() for _ in range(6)]
     unrelated = t.bool()
     coro_handlers = t.bool() if is_async else False
+    ns_spelling = t.choice(3) if (bits[4] and ns == '/' and event != STAR) else 0
     args = (t.int(-3, 3),)
     if t.bool():
         args = args + (t.str(2),)
@@ -115,7 +116,8 @@ def h(t, part):
             obj.on('other', target('other'), namespace=ns)
         if bits[4] and ns != STAR and event != STAR:
             nstable[ns] = 'cls'
-            obj.register_namespace(mkns('cls', ns, nsbase))
+            # the default namespace may be written '/', '' or left out when the object is built
+            obj.register_namespace(mkns('cls', [ns, '', None][ns_spelling] if ns == '/' else ns, nsbase))
         if bits[5] and event != STAR:
             nstable['*'] = 'clsstar'
             obj.register_namespace(mkns('clsstar', '*', nsbase))
